@@ -22,7 +22,17 @@ def build_impl(terms, full):
     from hpotk.model import MinimalTerm, Term, TermId
     from hpotk.ontology import create_minimal_ontology, create_ontology
     objs = []
-    for t in terms:
+
+    def alts_of(t, k):
+        # the alternate ids arrive as a list of CURIEs, a tuple of TermIds, or a tuple MIXING TermIds and CURIE strings
+        a = t['alts']
+        if k % 3 == 0 or not a:
+            return a
+        if k % 3 == 1:
+            return tuple(TermId.from_curie(x) for x in a)
+        return tuple(TermId.from_curie(x) if i % 2 == 0 else x for i, x in enumerate(a))
+    for k, t in enumerate(terms):
+        t = dict(t, alts=alts_of(t, k))
         if full:
             objs.append(Term.create_term(t['id'], name=t['name'], alt_term_ids=t['alts'], is_obsolete=t['obs'], definition=None,
                                          comment=None, synonyms=None, xrefs=None))
